@@ -51,6 +51,9 @@ mod types;
 fn main() {
     unsafe {
         libc::signal(libc::SIGPIPE, libc::SIG_DFL);
+        // an inherited SIG_IGN would make the kernel reap our children for
+        // us: waitpid() then fails with ECHILD and every status reads 0
+        libc::signal(libc::SIGCHLD, libc::SIG_DFL);
 
         // ignore SIGTSTP (ctrl-Z) for the shell itself
         libc::signal(libc::SIGTSTP, libc::SIG_IGN);
